@@ -249,6 +249,8 @@ fn build_doc(d: &TextDoc) -> Buffer {
                 }
             }
             Some('3') => b.palette.set_color(0, icy_engine::Color::new(10, 20, 30)),
+            // only the bright entry a bold dark colour is displayed with differs from the DOS palette
+            Some('4') => b.palette.set_color(9, icy_engine::Color::new(255, 128, 0)),
             _ => {}
         }
     }
@@ -261,6 +263,10 @@ fn build_doc(d: &TextDoc) -> Buffer {
                 put_t(&mut b, x as i32, y as i32, c);
             }
         }
+    }
+    if d.what.contains("[canvas+1]") {
+        // the canvas is one row taller than its only layer (what resize_buffer(false, ..) leaves): the cells of that row are held by no layer
+        b.set_height(h + 1);
     }
     b
 }
@@ -290,7 +296,7 @@ fn run_doc(d: &TextDoc, prop: &str, ctx: &mut Ctx) {
     ctx.count("evaluations", 1);
     ctx.count("transitions", 2);
     let src = build_doc(d);
-    let h = d.rows.len() as i32;
+    let h = src.get_height();
     let o = d.opt.save_options(d.sauce);
     let bytes = match catch(|| src.to_bytes(d.ext, &o)) {
         Err(p) => {
@@ -687,6 +693,32 @@ fn build_c04(tier: &str) -> (Vec<Job>, Value) {
         }
     }
     counts.insert("palette_position_blink_in_ice_and_bom_rows".into(), json!(n7));
+    // (8) rows that are written as cursor movements only (blanks on black in several attributes) between rows of text, more of them
+    //     than a screen has lines; bold cells under a palette whose bright entries are not the DOS ones; a canvas taller than its layer
+    let mut n8 = 0;
+    for o in Opt::near(1) {
+        let a = t(Cell::new(b'A' as u32, 7, 0));
+        let blank_row: Vec<TCell> = std::iter::repeat(t(Cell::new(32, 7, 0).bold())).take(10).chain(std::iter::repeat(t(Cell::new(32, 7, 0))).take(70)).collect();
+        let blank_row2: Vec<TCell> = std::iter::repeat(t(Cell::new(32, 2, 0))).take(5).chain(std::iter::repeat(t(Cell::new(32, 9, 0))).take(5)).collect();
+        for k in [1usize, 24, 25, 30, 58] {
+            let mut rows: Vec<Vec<TCell>> = vec![vec![a; 80]];
+            for i in 0..k {
+                // (a row of blanks that differ in their foreground only is written as one printed blank; the bold ones as cursor movements)
+                rows.push(if i % 9 == 8 && k != 30 { blank_row2.clone() } else { blank_row.clone() });
+            }
+            rows.push(vec![t(Cell::new(b'B' as u32, 7, 0)); 3]);
+            n8 += rows.len();
+            let per = rows.len();
+            chunk_docs("ans", 80, rows, per, o, false, "text, rows of blanks in several attributes, text", &mut docs);
+        }
+        let bold_rows: Vec<Vec<TCell>> = vec![(0..16u32).map(|fg| t(Cell::new(0xDB, fg % 8, (fg / 8) % 8).bold())).chain((0..8u32).map(|fg| t(Cell::new(b'x' as u32, fg, 1).bold()))).collect()];
+        n8 += 1;
+        chunk_docs("ans", 80, bold_rows, 1, o, false, "[pal4] bold cells of every dark colour", &mut docs);
+        let tall: Vec<Vec<TCell>> = vec![vec![t(Cell::new(b'A' as u32, 7, 1)); 80], vec![t(Cell::new(b'b' as u32, 14, 4)); 40]];
+        n8 += 2;
+        chunk_docs("ans", 80, tall, 2, o, false, "[canvas+1] coloured rows, canvas one row taller than the layer", &mut docs);
+    }
+    counts.insert("cursor_only_rows_bright_palette_tall_canvas".into(), json!(n8));
     // (6) widths beyond 80 columns carried by SAUCE: prefix . filler . suffix rows (blank runs that end beyond column 80)
     let mut n6 = 0;
     for w in [81usize, 100, 132] {
